@@ -13,6 +13,12 @@ Qed.
 Lemma mem_false : forall p l, mem p l = false <-> ~ In p l.
 Proof. intros p l. rewrite <- mem_In. destruct (mem p l); split; congruence. Qed.
 
+Lemma mem_cons : forall p d l, mem p (d :: l) = path_eqb p d || mem p l.
+Proof. reflexivity. Qed.
+
+Lemma mem_nil : forall p, mem p [] = false.
+Proof. reflexivity. Qed.
+
 Lemma mem_app : forall p a b, mem p (a ++ b) = mem p a || mem p b.
 Proof. intros. unfold mem. apply existsb_app. Qed.
 
@@ -69,6 +75,15 @@ Proof.
   cbn in H. inversion H as [|? ? Hn Hd]; subst. destruct H1 as [->|H1].
   - apply Hn. apply in_or_app. now right.
   - now apply (IH l2 x).
+Qed.
+
+Lemma NoDup_app_intro : forall (A : Type) (l1 l2 : list A),
+  NoDup l1 -> NoDup l2 -> (forall x, In x l1 -> In x l2 -> False) -> NoDup (l1 ++ l2).
+Proof.
+  intros A l1. induction l1 as [|a l1 IH]; intros l2 H1 H2 Hd; [assumption|].
+  inversion H1 as [|? ? Hn Hd1]; subst. cbn. constructor.
+  - intros Hin. apply in_app_or in Hin as [Hin|Hin]; [contradiction | apply (Hd a); [now left | assumption]].
+  - apply IH; [assumption | assumption | intros x Hx1 Hx2; apply (Hd x); [now right | assumption]].
 Qed.
 
 Section Build.
@@ -210,3 +225,21 @@ Proof.
   - intros H q [r [-> [Hq Hr]]]. now apply (H q r).
   - intros H q r -> Hq Hr. apply H. now exists r.
 Qed.
+
+Lemma above_not_prefix_back : forall q d, above q d -> is_prefix d q = false.
+Proof.
+  intros q d [r [-> [Hq Hr]]]. destruct (is_prefix (q ++ r) q) eqn:E; [|reflexivity].
+  apply is_prefix_spec in E as [r' E]. rewrite <- app_assoc in E. rewrite <- (app_nil_r q) in E at 1.
+  apply app_inv_head in E. destruct r; [contradiction | discriminate].
+Qed.
+
+Lemma above_neq : forall q d, above q d -> q <> d.
+Proof.
+  intros q d A E. subst. apply above_not_prefix_back in A. now rewrite is_prefix_refl in A.
+Qed.
+
+Lemma prefix_cases : forall l p, is_prefix l p = true -> l = p \/ is_proper_prefix l p = true.
+Proof.
+  intros l p H. unfold is_proper_prefix. rewrite H. destruct (path_eqb l p) eqn:E; [left; now apply path_eqb_eq | now right].
+Qed.
+
